@@ -1,4 +1,5 @@
 import GlareModel.Core.Rle
+import GlareModel.Core.Plain
 
 /-! # C10 — Reading a valid Parquet file returns exactly the rows it encodes
 (decoder level: the RLE / bit-packing hybrid used for definition levels, dictionary indices and booleans) -/
@@ -89,5 +90,150 @@ theorem truncated_literal_run_is_oob : readN 9 { bytes := [0x03, 0x88, 0xC6, 0xF
 
 example : readN 8 { bytes := [0x03, 0x88, 0xC6, 0xFA], width := 3 } = some ([0, 1, 2, 3, 4, 5, 6, 7], { bytes := [], width := 3 }) := by decide
 example : readN 5 { bytes := [4, 5, 6, 1], width := 3 } = some ([5, 5, 1, 1, 1], { bytes := [], width := 3, curVal := 1 }) := by decide
+
+/-! ## Data pages: definition levels place the PLAIN values (Core/Plain.lean) -/
+section Pages
+open GlareModel.Plain
+
+
+/-- `placeLevels` succeeds exactly when there is one value per non-zero level, and then: one output row per
+level, the non-NULL rows carry the values in order, and row `i` is NULL iff its level is 0. -/
+theorem placeLevels_spec {α : Type} (ds : List Nat) (vs : List α) (rows : List (Option α))
+    (h : placeLevels ds vs = some rows) :
+    rows.length = ds.length ∧ rows.filterMap id = vs ∧
+    ∀ i, i < ds.length → ((rows.getD i none).isSome ↔ ds.getD i 0 ≠ 0) := by
+  induction ds generalizing vs rows with
+  | nil =>
+    cases vs with
+    | nil => simp [placeLevels] at h; subst h; simp
+    | cons v vs => simp [placeLevels] at h
+  | cons d ds ih =>
+    simp only [placeLevels] at h
+    split at h
+    · rename_i hd
+      cases hp : placeLevels ds vs with
+      | none => simp [hp] at h
+      | some r =>
+        simp only [hp, Option.map_some, Option.some.injEq] at h
+        subst h
+        obtain ⟨h1, h2, h3⟩ := ih vs r hp
+        refine ⟨by simp [h1], by simpa using h2, ?_⟩
+        intro i hi
+        cases i with
+        | zero => simp [hd]
+        | succ i => simpa using h3 i (by simpa using hi)
+    · rename_i hd
+      cases vs with
+      | nil => simp at h
+      | cons v vs' =>
+        simp only at h
+        cases hp : placeLevels ds vs' with
+        | none => simp [hp] at h
+        | some r =>
+          simp only [hp, Option.map_some, Option.some.injEq] at h
+          subst h
+          obtain ⟨h1, h2, h3⟩ := ih vs' r hp
+          refine ⟨by simp [h1], by simp [h2], ?_⟩
+          intro i hi
+          cases i with
+          | zero => simp [hd]
+          | succ i => simpa using h3 i (by simpa using hi)
+
+/-- ... and it does succeed whenever the counts match. -/
+theorem placeLevels_total {α : Type} (ds : List Nat) (vs : List α) (h : (ds.filter (· != 0)).length = vs.length) :
+    ∃ rows, placeLevels ds vs = some rows := by
+  induction ds generalizing vs with
+  | nil =>
+    cases vs with
+    | nil => exact ⟨[], rfl⟩
+    | cons v vs => simp at h
+  | cons d ds ih =>
+    simp only [placeLevels]
+    by_cases hd : d = 0
+    · subst hd
+      obtain ⟨r, hr⟩ := ih vs (by simpa using h)
+      exact ⟨none :: r, by simp [hr]⟩
+    · cases vs with
+      | nil => simp [hd] at h
+      | cons v vs' =>
+        obtain ⟨r, hr⟩ := ih vs' (by simpa [hd] using h)
+        exact ⟨some v :: r, by simp [hd, hr]⟩
+
+/-- **Page-split independence of level placement**: placing the levels and values of two
+consecutive pages separately and concatenating equals placing the concatenation. -/
+theorem placeLevels_append {α : Type} (d1 d2 : List Nat) (v1 v2 : List α) (r1 r2 : List (Option α))
+    (h1 : placeLevels d1 v1 = some r1) (h2 : placeLevels d2 v2 = some r2) :
+    placeLevels (d1 ++ d2) (v1 ++ v2) = some (r1 ++ r2) := by
+  induction d1 generalizing v1 r1 with
+  | nil =>
+    cases v1 with
+    | nil => simp [placeLevels] at h1; subst h1; simpa using h2
+    | cons v vs => simp [placeLevels] at h1
+  | cons d ds ih =>
+    simp only [placeLevels] at h1
+    simp only [List.cons_append, placeLevels]
+    split at h1
+    · rename_i hd
+      cases hp : placeLevels ds v1 with
+      | none => simp [hp] at h1
+      | some r =>
+        simp only [hp, Option.map_some, Option.some.injEq] at h1
+        subst h1
+        simp [hd, ih v1 r hp]
+    · rename_i hd
+      cases v1 with
+      | nil => simp at h1
+      | cons v vs' =>
+        simp only at h1
+        cases hp : placeLevels ds vs' with
+        | none => simp [hp] at h1
+        | some r =>
+          simp only [hp, Option.map_some, Option.some.injEq] at h1
+          subst h1
+          simp [hd, ih vs' r hp]
+
+theorem le_leBytes (w v : Nat) (h : v < 256 ^ w) : le (Rle.leBytes w v) = v := by
+  induction w generalizing v with
+  | zero => simp [Rle.leBytes, le] at *; omega
+  | succ w ih =>
+    simp only [Rle.leBytes, le]
+    have : v / 256 < 256 ^ w := by
+      rw [Nat.pow_succ] at h
+      exact Nat.div_lt_of_lt_mul (by rw [Nat.mul_comm]; exact h)
+    rw [ih _ this]
+    omega
+
+theorem leBytes_length (w v : Nat) : (Rle.leBytes w v).length = w := by
+  induction w generalizing v with
+  | zero => rfl
+  | succ w ih => simp [Rle.leBytes, ih]
+
+/-- **PLAIN fixed-width round trip**: decoding the little-endian encoding of any list of in-range
+values returns exactly those values and consumes exactly their bytes (any count, any width). -/
+theorem decodeFixed_encodeFixed (w : Nat) (vs : List Nat) (rest : List Nat) (h : ∀ v ∈ vs, v < 256 ^ w) :
+    decodeFixed w vs.length (encodeFixed w vs ++ rest) = some (vs, rest) := by
+  induction vs with
+  | nil => simp [decodeFixed, encodeFixed]
+  | cons v vs ih =>
+    have hv := h v (List.mem_cons_self ..)
+    have ih' := ih (fun x hx => h x (List.mem_cons_of_mem _ hx))
+    simp only [encodeFixed, List.flatMap_cons, List.length_cons, decodeFixed, List.append_assoc]
+    have hl := leBytes_length w v
+    have hlen : ¬ ((Rle.leBytes w v ++ (List.flatMap (Rle.leBytes w) vs ++ rest)).length < w) := by
+      simp [hl]
+    simp only [hlen, if_false]
+    have hdrop : (Rle.leBytes w v ++ (List.flatMap (Rle.leBytes w) vs ++ rest)).drop w = List.flatMap (Rle.leBytes w) vs ++ rest := by
+      exact List.drop_left' hl
+    have htake : (Rle.leBytes w v ++ (List.flatMap (Rle.leBytes w) vs ++ rest)).take w = Rle.leBytes w v := by
+      exact List.take_left' hl
+    rw [hdrop, htake]
+    simp only [encodeFixed] at ih'
+    rw [ih', le_leBytes w v hv]
+
+example : decodePage .int32 true 4 [2, 0, 0, 0, 8, 1,  7, 0, 0, 0,  255, 255, 255, 255, 3, 0, 0, 0, 9, 0, 0, 0] =
+    some [some (.int 7), some (.int (-1)), some (.int 3), some (.int 9)] := by decide
+example : decodePage .int64 true 3 [4, 0, 0, 0, 2, 1, 4, 0,  5, 0, 0, 0, 0, 0, 0, 0] = some [some (.int 5), none, none] := by decide
+
+end Pages
 
 end GlareModel.Props.C10
